@@ -183,6 +183,23 @@ Theorem C19_in_order_while_connected :
 Proof. exact in_order_while_connected. Qed.
 Print Assumptions C19_in_order_while_connected.
 
+(* ... and across connections, whatever fails on the writing side (a reset noticed by the writer, a
+   message that cannot be written at all): a message whose write failed is dropped, never put back, so
+   what reaches the wire over all connections is an order-preserving sub-list of what was offered -
+   nothing twice, nothing overtaking - and with no failed write nothing is missing *)
+Theorem C19_order_kept_across_write_failures :
+  forall rs offered,
+    is_subseq (fst (writer_run offered rs)) offered = true /\
+    is_subseq (snd (writer_run offered rs)) offered = true /\
+    (Forall (fun r => r = WOk) rs -> fst (writer_run offered rs) ++ snd (writer_run offered rs) = offered).
+Proof. exact writer_keeps_order. Qed.
+Print Assumptions C19_order_kept_across_write_failures.
+
+Example C19_writer_witness :
+  writer_run [1; 2; 3; 4; 5]%N [WOk; WFail; WOk; WOk] = ([1; 3; 4]%N, [5]%N) /\
+  is_subseq [1; 3; 4]%N [1; 2; 3; 4; 5]%N = true /\ is_subseq [2; 1; 3]%N [1; 2; 3]%N = false.
+Proof. vm_compute. repeat split; reflexivity. Qed.
+
 (* "used by the host, the file tool and the public client/status packages": each wrapper puts further
    single-goroutine forwarders in front of / behind the two pumps (pkg/client: Send -> r.Out ->
    connection and connection -> r.In -> Receive; pkg/status: one more; rwc: RelayOut / RelayIn; file:
